@@ -226,7 +226,7 @@ func (vc *VC) doCall(c *ssa.CallCommon, v ssa.Value, st *State, pos token.Pos) *
 			if label == "" {
 				label = fmt.Sprintf("callpre%d", i)
 			}
-			vc.oblige("callpre", cp.Callee+":"+label, vc.trBool(cp.C.E, env), pos)
+			vc.oblige("callpre", cp.Callee+":"+label, vc.trGoal(cp.C.E, env), pos)
 			vc.callPreHit[i]++
 		}
 	}
@@ -372,7 +372,7 @@ func (vc *VC) applyContract(fc *FuncContract, fn *ssa.Function, c *ssa.CallCommo
 		if label == "" {
 			label = fmt.Sprintf("requires%d", i)
 		}
-		vc.oblige("pre", fc.Name+":"+label, vc.trBool(r.E, env), pos)
+		vc.oblige("pre", fc.Name+":"+label, vc.trGoal(r.E, env), pos)
 	}
 	if vc.preOnly {
 		return nil
